@@ -27,7 +27,7 @@ import (
 
 func TestMain(m *testing.M) {
 	harness.Property("C11",
-		"case = mailbox content (0..4 messages per folder, some with X-Unread / a stale X-FilePath line) + one operation {ProcessInbound, AddOut, SetSent, SetUnread(true|false)} + its message (60 B..8 KiB; short lines, long lines, blank and header-like lines, binary attachments, empty last attachment). The operation runs once in the mboxop helper under strace; the recorded calls on the mailbox tree are replayed onto the pre-state and every crash state is materialised: before/after every tree-changing call and after every prefix length of every write (all lengths for writes <= 1 KiB; otherwise the first and last 64, three positions around every CRLF and a seeded sample of 64). In a quarter of the SetSent cases the sent folder is a symbolic link to a directory on another file system (the kernel refuses the rename with EXDEV; a library that gives up loudly leaves no crash state, one that falls back to copying is judged at every step of the copy). One evaluation = one crash state judged with a fresh DirHandler. Non-trivial = crash state strictly between the first and the last tree-changing call; distinct by hash(case, call index, prefix length).",
+		"case = mailbox content (0..4 messages per folder, some with X-Unread / a stale X-FilePath line) + one operation {ProcessInbound, AddOut, SetSent, SetUnread(true|false)} + its message (60 B..8 KiB; short lines, long lines, blank and header-like lines, binary attachments, empty last attachment). The operation runs once in the mboxop helper under strace; the recorded calls on the mailbox tree are replayed onto the pre-state and every crash state is materialised: before/after every tree-changing call and after every prefix length of every write (all lengths for writes <= 1 KiB; otherwise the first and last 64, three positions around every CRLF and a seeded sample of 64). In a quarter of the SetSent cases the sent folder is a symbolic link to a directory on another file system (the kernel refuses the rename with EXDEV; a library that gives up loudly leaves no crash state, one that falls back to copying is judged at every step of the copy). For a third of the storing cases up to four recovered states (call boundaries) become the pre-state - left-overs and hard links included - of a second exploration: the station restarts, SetUnread is called on the message and every crash state of that call is judged too. One evaluation = one crash state judged with a fresh DirHandler. Non-trivial = crash state strictly between the first and the last tree-changing call; distinct by hash(case, call index, prefix length).",
 		"crash = death of the process: the kernel applies system calls in order and a write may be cut at any byte; power loss (reordering of unsynced data) is outside the statement",
 		"the replayed final tree must equal the tree the helper really left, and the pre-state itself must pass the oracle; otherwise the run is reported as a harness problem (inconclusive), never as a violation",
 		"'intact' is judged through the API: listing of the folder, message re-serialised, compared modulo X-FilePath (which OpenMessage sets) — and modulo X-Unread for the message whose flag is being rewritten",
@@ -482,6 +482,7 @@ type stats struct {
 	writes               int
 	hashes               []uint64
 	failedState          string
+	second, secondStates int    // second-level explorations (crash during the next operation after a recovery) and their states
 	elsewhere, refused   bool   // sent folder on another file system; the library refused the move loudly
 	skipped              string // environment could not provide what the case asked for
 }
@@ -524,7 +525,12 @@ func prefixLens(data []byte, seed uint64) []int {
 	return out
 }
 
-func run(c Case) (sig, msg string, st stats, herr error) {
+func run(c Case) (sig, msg string, st stats, herr error) { return runFrom(c, nil, 0) }
+
+// runFrom explores the crash states of c's operation. from == nil: the pre-state is laid out from c.Stored. Otherwise
+// (depth 1) the pre-state is a recovered crash state of an earlier operation, left-overs and hard links included, and
+// c describes the next operation on it: the history "crash, restart, next operation, crash".
+func runFrom(c Case, from *fstrace.Snapshot, depth int) (sig, msg string, st stats, herr error) {
 	if _, err := exec.LookPath("strace"); err != nil {
 		return "", "", st, problem("strace is not available: %v", err)
 	}
@@ -534,7 +540,11 @@ func run(c Case) (sig, msg string, st stats, herr error) {
 	}
 	defer os.RemoveAll(base)
 	root := filepath.Join(base, "mbox")
-	if !c.Fresh {
+	if from != nil {
+		if err := from.Materialise(root, ""); err != nil {
+			return "", "", st, problem("materialise the recovered state: %v", err)
+		}
+	} else if !c.Fresh {
 		for _, f := range folders {
 			if err := os.MkdirAll(filepath.Join(root, f), 0o755); err != nil {
 				return "", "", st, problem("%v", err)
@@ -638,6 +648,12 @@ func run(c Case) (sig, msg string, st stats, herr error) {
 	if !c.Fresh {
 		if sg, ms, err := check(pre.Snapshot()); err != nil {
 			return "", "", st, err
+		} else if sg != "" && depth > 0 {
+			return "", "", st, nil // the earlier operation had not got far enough for this follow-up: nothing to explore
+		} else if strings.HasSuffix(sg, "false-already-received") {
+			// nothing the generator lays out can make the library claim a message it does not list; the state before
+			// the operation's first call is the first crash point
+			return sg, fmt.Sprintf("crash before the first call of the operation (%s of %s, %d messages stored before):\n%s", c.Op, c.opMID(), len(c.Stored), ms), st, nil
 		} else if sg != "" {
 			return "", "", st, problem("the generated pre-state does not pass the oracle (%s): %s", sg, ms)
 		}
@@ -708,7 +724,7 @@ func run(c Case) (sig, msg string, st stats, herr error) {
 		st.states++
 		// continuation phase: at every call boundary, in the last 8 bytes and every 4th of the last 40 bytes of every
 		// write (left-overs as long as possible) and at every 32nd (thorough: 4th) other state
-		continuing = k < 0 || wlen-k <= 8 || (wlen-k <= 40 && k%4 == 0) || st.states%harness.Scale(32, 4) == 0
+		continuing = depth == 0 && (k < 0 || wlen-k <= 8 || (wlen-k <= 40 && k%4 == 0) || st.states%harness.Scale(32, 4) == 0)
 		if continuing {
 			st.continued++
 		}
@@ -728,6 +744,30 @@ func run(c Case) (sig, msg string, st stats, herr error) {
 		if sg != "" {
 			st.failedState = what
 			return sg, fmt.Sprintf("crash %s (call %d of %d on the mailbox tree; operation %s of %s, %d messages stored before):\n%s", what, idx+1, len(events), c.Op, c.opMID(), len(c.Stored), ms), nil
+		}
+		// second level (a third of the storing cases, at most 4 states each, call boundaries from the first tree-changing
+		// call on): the station restarts on this state and rewrites the read flag of the message - and dies again
+		if depth == 0 && k < 0 && idx >= first && st.second < 4 && c.Seed%3 == 0 && (c.Op == "process_inbound" || c.Op == "add_out") {
+			f := map[string]string{"process_inbound": "in", "add_out": "out"}[c.Op]
+			c2 := Case{Op: "set_unread", Folder: f, MID: c.Msg.MID, Unread: st.second%2 == 0, Seed: c.Seed + uint64(idx)}
+			for _, x := range c.Stored {
+				if !(x.Folder == f && x.Msg.MID == c.Msg.MID) {
+					c2.Stored = append(c2.Stored, x)
+				}
+			}
+			c2.Stored = append(c2.Stored, Stored{Folder: f, Msg: *c.Msg})
+			sg2, ms2, st2, err := runFrom(c2, &s, 1)
+			if err != nil {
+				return "", "", err
+			}
+			if st2.states > 0 {
+				st.second++
+				st.secondStates += st2.states
+			}
+			if sg2 != "" {
+				st.failedState = what
+				return "second:" + sg2, fmt.Sprintf("history: %s of %s died %s; the station restarted (that state passes the recovery oracle) and SetUnread(%s, %v) was called - and died too:\n%s", c.Op, c.opMID(), what, c.Msg.MID, c2.Unread, ms2), nil
+			}
 		}
 		return "", "", nil
 	}
@@ -899,6 +939,18 @@ func genCase(t *rapid.T) Case {
 				}
 			}
 		}
+		if rapid.IntRange(0, 5).Draw(t, "mid_case_variant") == 0 {
+			// another message whose identifier differs from a stored one only in the case of its letters
+			folder := "in"
+			if c.Op == "add_out" {
+				folder = "out"
+			}
+			for _, s := range c.Stored {
+				if v := strings.ToLower(s.Msg.MID); s.Folder == folder && v != s.Msg.MID {
+					mid = v
+				}
+			}
+		}
 		m := genMsg(t, mid, 7600, "op")
 		if c.Op == "add_out" {
 			m.P2POnly = rapid.Bool().Draw(t, "op_p2p")
@@ -956,6 +1008,9 @@ func account(c Case, st stats) {
 	if st.skipped != "" {
 		harness.Label("skipped:" + st.skipped)
 	}
+	harness.LabelN("second-level:explorations(crash, restart, SetUnread, crash)", st.second)
+	harness.LabelN("second-level:states", st.secondStates)
+	harness.EvalN(st.secondStates)
 	if c.Msg != nil && len(c.Msg.Files) > 0 {
 		harness.Label("case:attachments")
 	}
